@@ -17,3 +17,7 @@ func NewTCPTransportFromConn(conn net.Conn, server bool, config *TCPConfig) Tran
 	t.setConn(conn)
 	return &t
 }
+
+// VerifEnvelope names the (unexported) envelope interface, so that code outside the package can
+// implement Transport by wrapping a real transport. It exists only under the "verif" build tag.
+type VerifEnvelope = envelope
